@@ -342,8 +342,86 @@ fn model_selfcheck(ctx: &Ctx, rng: &mut Rng) -> bool {
     true
 }
 
+/// The same sender model through a real connection with fragmentation negotiated: a whole message that creates and
+/// overwrites cache entries arrives between the fragments of another (which refers to untouched entries only, so the
+/// history has one reading), and later messages refer to what the message in between set up.
+fn through_a_connection(ctx: &Ctx, rng: &mut Rng) {
+    use crate::mon::net::{self, FLAG_DIST_HDR_ATOM_CACHE, FLAG_FRAGMENTS, PEER_BASE_FLAGS};
+    use crate::refmodel::dist::AtomRef;
+    use crate::refmodel::encode::ref_encode_canonical;
+    let rt = tokio::runtime::Builder::new_current_thread().enable_all().build().expect("runtime");
+    rt.block_on(async {
+        let epmd = net::start_epmd().await;
+        for h in 0..ctx.pick(6usize, 200usize) {
+            if !ctx.time_left() {
+                break;
+            }
+            let r = |a: &str, seg: u8, i: u8, new_entry: bool| AtomRef { atom: a.to_string(), segment: seg, internal: i, new_entry };
+            let control = |k: i128| Val::Tuple(vec![Val::int(2), Val::atom(""), Val::Pid { node: "rust@127.0.0.1".into(), id: k as u32, serial: 0, creation: 1 }]);
+            let seg = rng.below(8) as u8;
+            let (s1, s2, s3, s4) = (rng.below(60) as u8, 60 + rng.below(60) as u8, 120 + rng.below(60) as u8, 180 + rng.below(60) as u8);
+            let m1_p = Val::Tuple(vec![Val::atom("keep_a"), Val::atom("keep_b"), Val::atom("alpha")]);
+            let m1 = write_message(&[r("keep_a", seg, s1, true), r("keep_b", seg, s2, true), r("alpha", seg, s3, true)], &[&control(1), &m1_p]);
+            let a_p = Val::Tuple(vec![Val::atom("keep_b"), Val::atom("keep_a"), Val::binary(&vec![0x41; 100 + rng.below(300)])]);
+            let a_refs = [r("keep_a", seg, s1, false), r("keep_b", seg, s2, false)];
+            let a = write_message(&a_refs, &[&control(2), &a_p]);
+            let b_p = Val::Tuple(vec![Val::atom("beta"), Val::atom("gamma")]);
+            let b = write_message(&[r("beta", seg, s3, true), r("gamma", seg, s4, true)], &[&control(3), &b_p]);
+            let c_p = Val::Tuple(vec![Val::atom("gamma"), Val::atom("beta"), Val::atom("keep_a")]);
+            let c = write_message(&[r("beta", seg, s3, false), r("gamma", seg, s4, false), r("keep_a", seg, s1, false)], &[&control(4), &c_p]);
+            // fragments of A: the first carries the whole header part
+            let body = a[2..].to_vec();
+            let header_len = 1 + a_refs.len() / 2 + 1 + a_refs.len();
+            let nfrag = 2 + rng.below(3);
+            let seq: u64 = 0xA14_0000 + h as u64;
+            let mut a_frames: Vec<Vec<u8>> = Vec::new();
+            let mut prev = 0usize;
+            for f in 0..nfrag {
+                let end = if f + 1 == nfrag { body.len() } else { header_len + (body.len() - header_len) * (f + 1) / nfrag };
+                let mut fr = vec![131u8, if f == 0 { 69 } else { 70 }];
+                fr.extend_from_slice(&seq.to_be_bytes());
+                fr.extend_from_slice(&((nfrag - f) as u64).to_be_bytes());
+                fr.extend_from_slice(&body[prev..end]);
+                a_frames.push(fr);
+                prev = end;
+            }
+            let between_at = 1 + rng.below(nfrag - 1);
+            let mut stream: Vec<u8> = Vec::new();
+            stream.extend(super::c06::frame(&m1));
+            for (i, f) in a_frames.iter().enumerate() {
+                if i == between_at {
+                    stream.extend(super::c06::frame(&b));
+                }
+                stream.extend(super::c06::frame(f));
+            }
+            stream.extend(super::c06::frame(&c));
+            let mut end = vec![112u8];
+            end.extend(ref_encode_canonical(&control(9)).unwrap());
+            end.extend(ref_encode_canonical(&Val::atom("$end$")).unwrap());
+            stream.extend(super::c06::frame(&end));
+            let own = edp_client::DistributionFlags::default().as_u64() | FLAG_DIST_HDR_ATOM_CACHE | FLAG_FRAGMENTS;
+            let out = super::c06::scenario(&epmd, &format!("ac{}", h), own, PEER_BASE_FLAGS | FLAG_DIST_HDR_ATOM_CACHE | FLAG_FRAGMENTS, stream, vec![], nfrag + 10).await;
+            ctx.eval(4);
+            ctx.class(&format!("connection/whole-message-between-fragments/{}fragments/after-fragment-{}", nfrag, between_at));
+            if let Some(e) = &out.connect_error {
+                ctx.inconclusive(&format!("handshake with the scripted peer failed: {}", e));
+                continue;
+            }
+            let payloads: Vec<String> = out.results.iter().map(|r| match r { Ok((_, Some(p))) => p.show(), Ok((_, None)) => "no payload".into(), Err(e) => format!("error: {}", e) }).collect();
+            let want: Vec<String> = vec![m1_p.show(), b_p.show(), a_p.show(), c_p.show(), Val::atom("$end$").show()];
+            if out.panicked.is_some() || payloads != want {
+                ctx.viol(
+                    "C14:connection:entries-set-up-between-the-fragments-of-another-message",
+                    "through a connection, a message that arrived between the fragments of another set up cache entries that later messages could not rely on (or a message was not resolved to the atoms the sender meant)",
+                    json!({"history": h, "fragments": nfrag, "whole_message_after_fragment": between_at, "segment": seg, "returned": payloads.iter().map(|p| p.chars().take(90).collect::<String>()).collect::<Vec<_>>(), "expected": want.iter().map(|p| p.chars().take(90).collect::<String>()).collect::<Vec<_>>(), "panic": out.panicked}),
+                );
+            }
+        }
+    });
+}
+
 pub fn run(ctx: &Ctx) {
-    ctx.rule("writer side: control/payload pairs with 0..300 distinct atoms (even/odd counts, atom lengths 0..255, 256..1020, >65535; atoms only inside pids/funs) encoded by the library and read by an independent header reader and by the library's own decoder; reader side: histories of 1..50 messages from an atom-cache sender model (with and without a payload term; a few atoms or 60..255 references with mixed new / cached entries in all segments; new entries, re-use of entries of earlier messages, slot overwrites, all 8 segments, header position != slot, shuffled header order; messages with a faultless header and undecodable terms in between) decoded with one persistent AtomCache; evaluations = messages judged; distinct = distinct (side, reference count, reuse, position!=slot, segment use, long-atom parity) combinations");
+    ctx.rule("writer side: control/payload pairs with 0..300 distinct atoms (even/odd counts, atom lengths 0..255, 256..1020, >65535; atoms only inside pids/funs) encoded by the library and read by an independent header reader and by the library's own decoder; reader side: histories of 1..50 messages from an atom-cache sender model (with and without a payload term; a few atoms or 60..255 references with mixed new / cached entries in all segments; new entries, re-use of entries of earlier messages, slot overwrites, all 8 segments, header position != slot, shuffled header order; messages with a faultless header and undecodable terms in between) decoded with one persistent AtomCache; the same through a real connection with fragmentation, a whole message that sets up entries arriving between the fragments of another; evaluations = messages judged; distinct = distinct (side, reference count, reuse, position!=slot, segment use, long-atom parity) combinations");
     ctx.assume("header layout per erl_dist_protocol: flags nibble i for reference i (bit3 new entry, bits0-2 segment), nibble n bit0 = LongAtoms; ATOM_CACHE_REF k = k-th reference of this header; cache slot = segment*256 + internal index");
     let mut rng = Rng::derive(ctx.seed, 14, 1);
     if !model_selfcheck(ctx, &mut rng) {
@@ -351,4 +429,5 @@ pub fn run(ctx: &Ctx) {
     }
     writer_side(ctx, &mut rng);
     reader_side(ctx, &mut rng);
+    through_a_connection(ctx, &mut rng);
 }
